@@ -74,7 +74,7 @@ func init() {
 			})
 			c.guard("lineio/eofhang", func() {
 				ruleEOFPaths(c, "lineio/eofhang", "", "io/featio/bed", "io/featio/gff")
-				c.floor("lineio/eofhang", 3)
+				c.floor("lineio/eofhang", 2)
 			})
 			c.guard("panicval", func() {
 				rulePanicVal(c, "panicval", "io/featio/bed", "io/featio/gff")
@@ -92,8 +92,8 @@ func init() {
 		Run: func(c *Ctx) {
 			feat := []string{"io/featio/bed", "io/featio/gff"}
 			seqs := []string{"io/seqio/fasta", "io/seqio/fastq"}
-			c.guard("lineio/eofdata", func() { ruleDataOnEOF(c, "lineio/eofdata", feat...); c.floor("lineio/eofdata", 3) })
-			c.guard("lineio/normalise", func() { ruleNormalise(c, "lineio/normalise", feat...); c.floor("lineio/normalise", 3) })
+			c.guard("lineio/eofdata", func() { ruleDataOnEOF(c, "lineio/eofdata", feat...); c.floor("lineio/eofdata", 2) })
+			c.guard("lineio/normalise", func() { ruleNormalise(c, "lineio/normalise", feat...); c.floor("lineio/normalise", 2) })
 			c.guard("lineio/fragments", func() { ruleFragments(c, "lineio/fragments", seqs...); c.floor("lineio/fragments", 10) })
 			c.guard("lineio/eofdata", func() { ruleDataOnEOF(c, "lineio/eofdata", seqs...) })
 			c.guard("lineio/rawline", func() { ruleRawLine(c, "lineio/rawline", seqs...); c.floor("lineio/rawline", 2) })
@@ -105,7 +105,7 @@ func init() {
 				ruleBufAlias(c, "bufalias", append(append([]string{}, feat...), seqs...)...)
 				c.floor("bufalias", 4)
 			})
-			c.guard("lineio/eofclean", func() { ruleEOFPaths(c, "", "lineio/eofclean", feat...); c.floor("lineio/eofclean", 3) })
+			c.guard("lineio/eofclean", func() { ruleEOFPaths(c, "", "lineio/eofclean", feat...); c.floor("lineio/eofclean", 2) })
 		},
 	})
 	register(&propDef{
@@ -207,7 +207,7 @@ func init() {
 		Run: func(c *Ctx) {
 			c.guard("fresh/freshdst", func() {
 				ruleFreshDst(c, "fresh/freshdst", "Join", "Truncate", "Stitch", "Compose")
-				c.floor("fresh/freshdst", 7)
+				c.floor("fresh/freshdst", 4)
 			})
 			c.guard("slicebounds", func() { ruleSliceBounds(c, "slicebounds"); c.floor("slicebounds", 4) })
 			c.guard("parallelidx", func() { ruleParallelIdx(c, "parallelidx"); c.floor("parallelidx", 1) })
@@ -240,7 +240,7 @@ func init() {
 				}, "seq/alignment", "seq/multi", "seq/linear")
 				c.floor("fresh/retain", 7)
 			})
-			c.guard("padfromends", func() { rulePadFromEnds(c, "padfromends"); c.floor("padfromends", 3) })
+			c.guard("padfromends", func() { rulePadFromEnds(c, "padfromends"); c.floor("padfromends", 2) })
 			c.guard("stalebuf", func() {
 				ruleStaleBuf(c, "stalebuf", [][2]string{{"seq/alignment", "(*Seq).AppendEach"}, {"seq/alignment", "(*QSeq).AppendEach"}})
 				c.floor("stalebuf", 2)
@@ -395,9 +395,9 @@ func init() {
 			c.guard("pooldrain", func() { rulePoolDrain(c, "pooldrain"); c.floor("pooldrain", 1) })
 			c.guard("poolnil", func() { rulePoolNil(c, "poolnil"); c.floor("poolnil", 2) })
 			c.guard("poolmove", func() { rulePoolMove(c, "poolmove"); c.floor("poolmove", 3) })
-			c.guard("removeowner", func() { ruleRemoveOwner(c, "removeowner"); c.floor("removeowner", 4) })
+			c.guard("removeowner", func() { ruleRemoveOwner(c, "removeowner"); c.floor("removeowner", 2) })
 			c.guard("cycleowner", func() { ruleCycleOwner(c, "cycleowner"); c.floor("cycleowner", 1) })
-			c.guard("errslot", func() { ruleErrSlot(c, "errslot"); c.floor("errslot/sticky", 3); c.floor("errslot/propagate", 6+2) })
+			c.guard("errslot", func() { ruleErrSlot(c, "errslot"); c.floor("errslot/sticky", 1); c.floor("errslot/propagate", 6+2) })
 			// whether a cycle is in-memory or spilled must not be decided from state the
 			// background writers are still producing: Finalise joins before reading it
 			c.guard("gojoin", func() { ruleMorassJoin(c, "gojoin"); c.floor("gojoin", 1) })
@@ -411,7 +411,7 @@ func init() {
 		Run: func(c *Ctx) {
 			c.guard("gojoin", func() { ruleMorassJoin(c, "gojoin"); c.floor("gojoin", 1) })
 			c.guard("lockset", func() { ruleMorassLockset(c, "lockset"); c.floor("lockset", 4) })
-			c.guard("errslot", func() { ruleErrSlot(c, "errslot"); c.floor("errslot/sticky", 3) })
+			c.guard("errslot", func() { ruleErrSlot(c, "errslot"); c.floor("errslot/sticky", 1) })
 			c.guard("poolreturn", func() { rulePoolReturn(c, "poolreturn"); c.floor("poolreturn", 1) })
 			c.guard("cycleowner", func() { ruleCycleOwner(c, "cycleowner"); c.floor("cycleowner", 1) })
 			c.guard("reset", func() { ruleReset(c, "reset"); c.floor("reset", 6) })
@@ -424,12 +424,12 @@ func init() {
 		NotDecided:  "that the delivered values are right after a fault; Close/Remove errors (not in the property's list); what the AutoClear/AutoClean branches remove (value-level).",
 		Assumptions: []string{"an error that reaches a return or the slot is reported by a subsequent Push/Finalise/Pull"},
 		Run: func(c *Ctx) {
-			c.guard("errslot", func() { ruleErrSlot(c, "errslot"); c.floor("errslot/sticky", 3); c.floor("errslot/propagate", 6+2) })
-			c.guard("residue", func() { ruleResidue(c, "residue"); c.floor("residue", 5) })
+			c.guard("errslot", func() { ruleErrSlot(c, "errslot"); c.floor("errslot/sticky", 1); c.floor("errslot/propagate", 6+2) })
+			c.guard("residue", func() { ruleResidue(c, "residue"); c.floor("residue", 3) })
 			c.guard("filepairing", func() { ruleTempFilePairing(c, "filepairing"); c.floor("filepairing", 1) })
 			c.guard("runretire", func() { ruleRunRetire(c, "runretire"); c.floor("runretire", 1) })
 			c.guard("reset", func() { ruleReset(c, "reset"); c.floor("reset", 6) })
-			c.guard("removeowner", func() { ruleRemoveOwner(c, "removeowner"); c.floor("removeowner", 4) })
+			c.guard("removeowner", func() { ruleRemoveOwner(c, "removeowner"); c.floor("removeowner", 2) })
 			c.guard("gojoin", func() { ruleMorassJoin(c, "gojoin"); c.floor("gojoin", 1) })
 		},
 	})
@@ -509,7 +509,7 @@ func init() {
 		Assumptions: []string{"the kernel's Hit fields Abpos/Aepos/Bbpos/Bepos are the hit's begin/end positions on the two sequences"},
 		Run: func(c *Ctx) {
 			c.guard("emitguard", func() { ruleDPEmit(c, "emitguard"); c.floor("emitguard", 6) })
-			c.guard("dupclass", func() { ruleDupClass(c, "dupclass"); c.floor("dupclass", 4) })
+			c.guard("dupclass", func() { ruleDupClass(c, "dupclass"); c.floor("dupclass", 2) })
 			c.guard("ownedfilter", func() { ruleOwnedFilter(c, "ownedfilter"); c.floor("ownedfilter", 2) })
 			c.guard("selfguard", func() { ruleSelfGuard(c, "selfguard"); c.floor("selfguard", 1) })
 			c.guard("intersectminmax", func() { ruleIntersectMinMax(c, "intersectminmax"); c.floor("intersectminmax", 2) })
